@@ -5,9 +5,10 @@ C16 (server part) — the will bookkeeping of the per-connection task
   `Event::PublishWill`.
 
 One `Task` = one `remote()` call that got past `mqtt_connect`. The shared state is the map
-`will_handlers : Mutex<HashMap<client id, Sender<AwaitingWill>>>` (a std mutex: it is POISONED when a
-task panics while holding the guard, and every later `lock().unwrap()` panics). The channel is
-`flume::bounded(1)`; its receiver lives in the task and is dropped when the task returns.
+`will_handlers : Mutex<HashMap<client id, Sender<AwaitingWill>>>`. The channel is
+`flume::bounded(1)`; its receiver lives in the task and is dropped when the task returns. No step
+of `remote()` panics while the map's guard is alive (the previous sender is taken out of the map
+first and signalled with `try_send(..).ok()`), so the mutex is never poisoned.
 Rust panics are explicit (`Phase.panicked`). Time is in milliseconds; the delay in seconds
 (`Duration::from_secs(will_delay_interval)`). Import-free apart from Model files.
 -/
@@ -54,7 +55,6 @@ inductive Phase
 inductive Resolution
   | signalled (s : Signal)
   | timedOut
-  | poisonedAtExpiry
   deriving DecidableEq, Repr
 
 structure Task where
@@ -78,7 +78,6 @@ def Task.receiverAlive (t : Task) : Bool :=
 structure World where
   now : Nat := 0
   handlers : List (String × Nat) := []
-  poisoned : Bool := false
   tasks : List Task := []
   log : List Ev := []
   deriving Repr
@@ -98,56 +97,43 @@ def World.resolveSignal (w : World) (t : Nat) (x : Task) (s : Signal) : World :=
 
 /-- the `Err(_)` arm: `will_handlers.lock().unwrap().remove(&client_id)`, then publish -/
 def World.resolveTimeout (w : World) (t : Nat) (x : Task) : World :=
-  if w.poisoned then
-    w.setTask t { x with phase := .panicked, resolution := some .poisonedAtExpiry }
-  else
-    let w := { w with handlers := aremove x.cid w.handlers }
-    let w := w.setTask t { x with phase := .finished, resolution := some .timedOut }
-    w.emit (.publishWill t x.cid)
-
-/-- outcome of the handler step for the new task -/
-inductive Admitted
-  | ok (task : Nat)
-  | panicked (task : Nat)
-  deriving DecidableEq, Repr
+  let w := { w with handlers := aremove x.cid w.handlers }
+  let w := w.setTask t { x with phase := .finished, resolution := some .timedOut }
+  w.emit (.publishWill t x.cid)
 
 /-- `remote()` between `mqtt_connect` and `RemoteLink::new`:
     ```
-    if let Some(sender) = will_handlers.lock().unwrap().remove(&client_id) {
-        sender.try_send(if clean_session { Fire } else { Cancel }).unwrap();   // guard still held
+    let previous = will_handlers.lock().unwrap().remove(&client_id);
+    if let Some(sender) = previous {
+        sender.try_send(if clean_session { Fire } else { Cancel }).ok();
     }
     will_handlers.lock().unwrap().insert(client_id, will_tx);
-    ``` -/
-def World.handlerStep (w : World) (cid : String) (clean : Bool) (delay : Nat) : World × Admitted :=
+    ```
+    Returns the index of the new task. -/
+def World.handlerStep (w : World) (cid : String) (clean : Bool) (delay : Nat) : World × Nat :=
   let t := w.tasks.length
   let fresh : Task := { cid := cid, clean := clean, delay := delay, phase := .running }
-  if w.poisoned then
-    ({ w with tasks := w.tasks ++ [{ fresh with phase := .panicked }] }, .panicked t)
-  else
-    let sig : Signal := if clean then .fire else .cancel
-    match alookup cid w.handlers with
-    | none =>
-      ({ w with tasks := w.tasks ++ [fresh], handlers := ainsert cid t w.handlers }, .ok t)
+  let sig : Signal := if clean then .fire else .cancel
+  let w := match alookup cid w.handlers with
+    | none => w
     | some o =>
       let w := { w with handlers := aremove cid w.handlers }
       match w.task? o with
-      | none =>   -- unreachable: handlers only name existing tasks
-        ({ w with tasks := w.tasks ++ [fresh], handlers := ainsert cid t w.handlers }, .ok t)
+      | none => w     -- unreachable: handlers only name existing tasks
       | some old =>
         if old.receiverAlive && old.inbox.isNone then
           -- delivered into the channel; a task already in its will wait is woken and handles it
           -- when it next runs (`World.wake`), i.e. after this task's `RemoteLink::new`, whose
           -- `link_rx.recv()` blocks the thread
-          let w := w.setTask o { old with inbox := some sig }
-          ({ w with tasks := w.tasks ++ [fresh], handlers := ainsert cid t w.handlers }, .ok t)
+          w.setTask o { old with inbox := some sig }
         else
-          -- `try_send` fails (`Disconnected`: the receiver was dropped when that task returned
-          -- without removing its handler; or `Full`): `.unwrap()` panics while the map's guard is
-          -- alive, which poisons the mutex
-          ({ w with poisoned := true, tasks := w.tasks ++ [{ fresh with phase := .panicked }] }, .panicked t)
+          -- `try_send` fails (`Disconnected`: that task has ended — e.g. it panicked inside its
+          -- link — without removing its handler): ignored, there is nobody to signal
+          w
+  ({ w with tasks := w.tasks ++ [fresh], handlers := ainsert cid t w.handlers }, t)
 
 /-- `RemoteLink::new`: `Event::Connect` to the router; `ok` = the router answered with a CONNACK.
-    On failure `remote()` returns at once — its handler stays in the map. -/
+    On failure `remote()` removes its handler again and returns. -/
 def World.linkStep (w : World) (t : Nat) (ok : Bool) : World :=
   match w.task? t with
   | none => w
@@ -155,7 +141,9 @@ def World.linkStep (w : World) (t : Nat) (ok : Bool) : World :=
     if x.phase ≠ .running then w else
     let w := w.emit (.connect t x.cid)
     if ok then w.setTask t { x with linked := true }
-    else w.setTask t { x with phase := .finished }
+    else
+      let w := { w with handlers := aremove x.cid w.handlers }
+      w.setTask t { x with phase := .finished }
 
 /-- `link.start()` returned with `cause`: `Event::Disconnect` unless the router closed the link,
     then the will wait begins -/
@@ -216,9 +204,9 @@ inductive Op
 
 def World.step (w : World) : Op → World
   | .admitted cid clean delay linkOk =>
-    match w.handlerStep cid clean delay with
-    | (w, .ok t) => let w := w.linkStep t linkOk; w.wake w.tasks.length
-    | (w, .panicked _) => w
+    let (w, t) := w.handlerStep cid clean delay
+    let w := w.linkStep t linkOk
+    w.wake w.tasks.length
   | .ended t cause => w.endLink t cause
   | .taskPanic t => w.panicLink t
   | .advance ms => w.advance ms
@@ -235,11 +223,10 @@ def World.sentDisconnect (w : World) (t : Nat) : Nat :=
 /-! ### the decision of one task, stated outright -/
 
 /-- what the will wait of `remote()` finds: a signal from a newer connection with the same client
-    id, or the expiry of the delay (with the mutex intact or poisoned) -/
+    id, or the expiry of the delay -/
 def publishWillDecision : Resolution → Bool
   | .signalled .fire => true
   | .signalled .cancel => false
   | .timedOut => true
-  | .poisonedAtExpiry => false
 
 end ServerWill
